@@ -28,14 +28,14 @@ def run(ctx):
     for r, t in [("C14-R1", "id closures go through the marker storage / retrieve_entity / mark"), ("C14-R2", "position i of the data comes from member i"),
                  ("C14-R3", "one element per (entities, markers) join item"), ("C14-R4", "Entity converts through the id mapping both ways")]:
         ctx.rule(r, t)
-    facts = ctx.facts("F")
+    facts = ctx.xfacts("F")
     r1(ctx, facts)
     r2(ctx, facts)
     r3(ctx, facts)
     r4(ctx, facts)
     if ctx.tier == "thorough":
-        ctx.facts("FN")
-        r2(ctx, ctx.facts("FN"))
+        ctx.xfacts("FN")
+        r2(ctx, ctx.xfacts("FN"))
     witness.run_set(ctx, "C14", ["w12_layout_01", "w12_layout_02", "w12_layout_08", "w12_layout_16", "w12_layout_permuted"])
 
 
@@ -130,8 +130,8 @@ def r2(ctx, facts):
             for k, o in enumerate(tup):
                 deps = b.deps(o)
                 gets = [d for d in deps if d[0] == "call" and b.term(d[1])["callee"].get("path") == "storage::generic::GenericReadStorage::get"]
-                if len(gets) != 1:
-                    ok, why = False, "position %d derives from %d storage lookups" % (k, len(gets))
+                if len({b.site(d[1]) for d in gets}) != 1:
+                    ok, why = False, "position %d derives from %d storage lookups" % (k, len({b.site(d[1]) for d in gets}))
                     break
                 g = gets[0][1]
                 c = b.term(g)["callee"]
@@ -139,15 +139,9 @@ def r2(ctx, facts):
                 if c.get("self_ty") != ms[k] or not (so[0] == "param" and so[1] == 1 and so[2][:1] == (str(k),)) or b.arg_origin(g, 1) != ("param", 2, ()):
                     ok, why = False, "position %d is read from %s / %r for entity %r (expected member %d = %s and the entity parameter)" % (k, c.get("self_ty"), so, b.arg_origin(g, 1), k, ms[k])
                     break
-                # converted by a closure calling convert_into
-                maps = [d for d in deps if d[0] == "call" and b.term(d[1])["callee"].get("name") == "map"]
-                conv = False
-                for d in maps:
-                    co = b.arg_origin(d[1], 1)
-                    if co[0] == "agg":
-                        cb = facts.body(b.blocks[co[1]]["stmts"][co[2]]["rv"].get("closure", ""))
-                        if cb and any(ct["callee"].get("path") == "saveload::ConvertSaveload::convert_into" for _, ct in cb.calls()):
-                            conv = True
+                # converted: the value at this position depends on a convert_into call fed by that lookup
+                conv = any(d[0] == "call" and b.term(d[1])["callee"].get("path") == "saveload::ConvertSaveload::convert_into"
+                           and any(b.depends_on_call(b.arg_origin(d[1], 0), gg[1]) for gg in gets) for d in deps)
                 if not conv:
                     ok, why = False, "position %d is not converted with convert_into" % k
                     break
